@@ -22,6 +22,25 @@ CLAIMED["C19"] = {
     "design_ref": "7 (C19)",
 }
 
+CLAIMED["C17"] = {
+    "technique": "Coq proofs about a hand model of unescapeParameter / AppendParameter and of the scanner's quoted-parameter states (unescape_quote for all byte strings, accepted_iff_quote, rejection positions), tied to the code by exhaustive extracted-model vs implementation correspondence and by the regenerated scanner table",
+    "text": "Round-trip of quoted parameters is proved for every byte string on the model; the model is compared with directive.unescapeParameter, AppendParameter and the real scanner on all strings over a 12-byte alphabet up to the length bound.",
+    "note": "Trusted: Coq kernel, extraction + OCaml driver, harness. Hand model (coq/model/Params.v) is tied by correspondence only.",
+    "design_ref": "7 (C17)",
+}
+CLAIMED["C02"] = {
+    "technique": "Coq proofs about a hand model of the jerr location arithmetic (totality on index <= len, line/line-beginning/line-end/quote specifications, no unsigned wrap), exhaustive extracted-model vs implementation correspondence; include-trace and directive-span clauses by core-model correspondence",
+    "text": "For every content and every index within the file the model never panics and line/quote agree with the index (theorems); model and jerr.NewLocation are compared on all contents over {a,space,tab,CR,LF} up to the bound at every index.",
+    "note": "Trusted: Coq kernel, extraction + OCaml driver, harness. Known finding: stale include-tracer cache (trace line of the first INCLUDE of the same includer).",
+    "design_ref": "7 (C02)",
+}
+CLAIMED["C13"] = {
+    "technique": "Coq proofs about a hand model of pathParameters / PathParameters / checkSimilarPaths (totality, specification, distinct prefixes, exact rejection conditions, order independence), exhaustive extracted-model vs implementation correspondence",
+    "text": "String-level path-parameter extraction and the similar-path check are proved against independent specifications for all byte strings and all path lists; compared with core.PathParameters over {/,{,},a,b} up to the bound.",
+    "note": "Trusted: Coq kernel, extraction + OCaml driver, harness. Binding of properties to interactions is decided by the core-model correspondence (DESIGN 7, C13).",
+    "design_ref": "7 (C13)",
+}
+
 NOT_YET = {
 }
 
